@@ -413,6 +413,15 @@ def corpus_program():
         {"t": "unsafe_cast_F6", "args": [26]},      # 28
         {"t": "seq_construct", "args": [1, 2]},     # 29
         {"t": "seq_at", "args": [29, 9]},           # 30
+        # a SECOND and a THIRD constant sequence of the same type: what was computed for one must not be handed out for another
+        {"t": "seq_construct", "args": [2, 1]},     # 31
+        {"t": "seq_at", "args": [31, 9]},           # 32
+        {"t": "seq_length", "args": [29]},          # 33
+        {"t": "seq_insert", "args": [29, 1]},       # 34
+        {"t": "seq_length", "args": [34]},          # 35
+        {"t": "concat_from_seq", "args": [29]},     # 36
+        {"t": "concat_from_seq", "args": [31]},     # 37
+        {"t": "concat_from_seq", "args": [34]},     # 38
         {"t": "c_value_string", "args": []},
         {"t": "c_value_strings", "args": []},
         {"t": "c_value_float", "args": []},
